@@ -6,5 +6,7 @@ V=$(cd "$(dirname "$0")/.." && pwd)
 exec 9>"$V/.build.lock"; flock 9
 GEN_SRC_FORCE_FALLBACK=1 /venv/bin/python "$V/harness/gen_src.py" /repo | tail -1
 (cd "$V/coq" && timeout 600 coqc -Q . BU Gen/Src.v) && echo FALLBACKS_TYPECHECK || echo FALLBACKS_BROKEN
+# ... and every tie proof must then pass or fail quickly (none may chew on a model term for minutes)
+(cd "$V/coq" && /usr/bin/time -f "make -k with every function fallen back: %es" timeout 900 make -k -j8 > /dev/null 2>/tmp/fb_time.$$; tail -1 /tmp/fb_time.$$; rm -f /tmp/fb_time.$$)
 /venv/bin/python "$V/harness/gen_src.py" /repo > /dev/null
 (cd "$V/coq" && timeout 3000 make -j8 > /dev/null 2>&1)
